@@ -141,8 +141,8 @@ def run(tier, seed, replay=None):
     for tid, v in verdicts.items():
         t = byid[tid]
         for rec in v["rejects"] + ([v["final"]] if v["final"]["clause"] else []) + v["monitors"]:
-            if rec["clause"].startswith("Error:") and rec.get("flags"):
-                continue       # states covered by recorded C01 findings
+            if rec.get("flags") or rec["clause"].startswith("RoundAfter:") or rec["status"] == "overelected":
+                continue       # states covered by recorded C01 findings (threshold 0, over-election, ...)
             if rec["clause"] in ("Error:ValueError",) and t["cfg"]["tb"] == "none":
                 continue
             res.violation("%s:%s" % (t["cfg"]["rule"], rec["clause"]), "a concrete presentation is not the spec's behaviour of the abstract input: clause %s" % rec["clause"],
